@@ -1,174 +1,515 @@
-"""Source facts for C16/C18: proto/varint.rs and the StreamId arithmetic of proto/stream.rs."""
+"""Source facts for C16/C18: proto/varint.rs, the StreamId/StreamType code of proto/stream.rs, the write_var/get_var
+copies of proto/coding.rs, PushId::try_from (proto/push.rs) and SessionId (webtransport/session_id.rs).
+
+How an item is read.  Every function the Coq model mirrors is located inside its impl block and its WHOLE text
+(`fn name(params) -> ret { body }`, comments stripped) is compared with a template kept below.  Before the comparison
+both sides are normalised:
+  * whitespace is dropped (one blank is kept between two adjacent words);
+  * identifiers bound by the function itself - parameters, `let [mut] x`, `Ok(x) =>`/`Err(x) =>`/`Some(x) =>` -
+    are renamed v0, v1, ... in binding order (alpha-normalisation), so a pure rename of a local passes, while an
+    inserted statement, an early return, an extra arm, a changed result expression or anything after the
+    condition does not.
+The template is the Rust text of the item with HOLES at the fact sites only: <<name:regex>> (a word-like hole: a
+number, a path segment), <<name~regex>> (an operator / string-literal hole), <<name>> (must repeat the earlier
+hole).  A text that does not match its template raises AnchorLost (= the check reports a violation; the message
+names the item and the first position where the normalised texts part).  Where a site decides a boolean fact
+(`*_delegates`, `write_var_is_checked_encode`, `get_var_is_decode`) the item has two templates: the delegating body
+(fact true) and the plain unchecked body (fact false, which the theorems refute); anything else is AnchorLost.
+"""
 import re
-from rustsrc import Source, AnchorLost, parse_int, coq_list
+from rustsrc import Source, AnchorLost, parse_int, coq_list, match_close
+
+NAME = 'GenVarint'
+
+# ------------------------------------------------------------------ normaliser
+
+_TOK_REAL = re.compile(r'b?"(?:[^"\\]|\\.)*"|\'(?:\\.[^\']*|[^\'\\])\'|\w+|\s+|.', re.S)
+_TOK_TPL = re.compile(r'<<\w+(?:[:~].*?)?>>|' + _TOK_REAL.pattern, re.S)
+_HOLE = re.compile(r'<<(\w+)(?:([:~])(.*?))?>>$', re.S)
+_KEYWORDS = {'self', 'Self', 'mut', 'ref', 'let', 'if', 'else', 'match', 'return', 'fn', 'as', 'for', 'in', 'impl',
+             'pub', 'const', 'unsafe', 'crate', 'super', 'where', 'type', 'true', 'false', '_'}
+
+
+def tokens(text, template=False):
+    """holes are recognised in templates only (real Rust text may contain `a<<b>>c`)"""
+    return [t for t in (_TOK_TPL if template else _TOK_REAL).findall(text) if not t.isspace()]
+
+
+def is_word(t):
+    m = _HOLE.match(t)
+    if m:
+        return m.group(2) != '~'          # <<n:..>> and <<n>> stand for words, <<n~..>> for operators / literals
+    return bool(re.match(r'\w', t)) and not t.startswith(('"', "'"))
+
+
+def binders(toks):
+    """identifiers the item binds itself, in binding order"""
+    out = []
+
+    def add(t):
+        if re.fullmatch(r'[A-Za-z_]\w*', t) and t not in _KEYWORDS and t not in out:
+            out.append(t)
+    # parameters: `name :` at depth 1 of the first parenthesis group
+    try:
+        i = toks.index('(')
+    except ValueError:
+        i = None
+    if i is not None and toks[0] == 'fn':
+        depth, k = 0, i
+        while k < len(toks):
+            t = toks[k]
+            if t in '([':
+                depth += 1
+            elif t in ')]':
+                depth -= 1
+                if depth == 0:
+                    break
+            elif depth == 1 and k + 1 < len(toks) and toks[k + 1] == ':' and toks[k - 1] in ('(', ',', 'mut') \
+                    and (k + 2 >= len(toks) or toks[k + 2] != ':'):
+                add(t)
+            k += 1
+    for k, t in enumerate(toks):
+        if t == 'let':
+            j = k + 1
+            if j < len(toks) and toks[j] == 'mut':
+                j += 1
+            if j < len(toks):
+                add(toks[j])
+        if t in ('Ok', 'Err', 'Some') and k + 5 < len(toks) + 1 and toks[k + 1:k + 2] == ['('] \
+                and toks[k + 3:k + 6] == [')', '=', '>']:
+            add(toks[k + 2])
+    return out
+
+
+def normalise(text, template=False):
+    """token list after alpha-normalisation"""
+    toks = tokens(text, template)
+    names = {n: 'v%d' % i for i, n in enumerate(binders(toks))}
+    out = []
+    for k, t in enumerate(toks):
+        if t in names:
+            prev = toks[k - 1] if k else ''
+            prev2 = toks[k - 2] if k > 1 else ''
+            nxt = toks[k + 1] if k + 1 < len(toks) else ''
+            nxt2 = toks[k + 2] if k + 2 < len(toks) else ''
+            is_path = (prev == ':' and prev2 == ':') or (nxt == ':' and nxt2 == ':')
+            is_field = prev == '.' and prev2 != '.'
+            is_macro = nxt == '!' and nxt2 != '='
+            if not (is_path or is_field or is_macro):
+                t = names[t]
+        out.append(t)
+    return out
+
+
+def joined(toks):
+    out = []
+    for k, t in enumerate(toks):
+        if k and is_word(toks[k - 1]) and is_word(t):
+            out.append(' ')
+        out.append(t)
+    return ''.join(out)
+
+
+def template_parts(tpl):
+    toks = normalise(tpl, True)
+    parts, seen = [], set()
+    for k, t in enumerate(toks):
+        sp = ' ' if (k and is_word(toks[k - 1]) and is_word(t)) else ''
+        m = _HOLE.match(t)
+        if not m:
+            parts.append(sp + re.escape(t))
+        elif m.group(2) is None:
+            if m.group(1) not in seen:
+                raise ValueError('hole %s repeated before it is defined' % m.group(1))
+            parts.append(sp + '(?P=%s)' % m.group(1))
+        else:
+            seen.add(m.group(1))
+            parts.append(sp + '(?P<%s>%s)' % (m.group(1), m.group(3)))
+    return parts
+
+
+def template_regex(tpl):
+    return re.compile(''.join(template_parts(tpl)))
+
+
+def matched_prefix(tpl, text):
+    """how far the normalised text follows the template (diagnosis only)"""
+    parts, best = template_parts(tpl), 0
+    for k in range(1, len(parts) + 1):
+        m = re.compile(''.join(parts[:k])).match(text)
+        if not m:
+            break
+        best = m.end()
+    return best
+
+
+def match_item(what, text, templates):
+    """templates: list of (template, tagvalue); returns (tagvalue, groupdict) of the first full match"""
+    norm = joined(normalise(text))
+    for tpl, tag in templates:
+        m = template_regex(tpl).fullmatch(norm)
+        if m:
+            return tag, m.groupdict()
+    n = max(matched_prefix(tpl, norm) for tpl, _ in templates)
+    raise AnchorLost('%s is not the text the model was written against; it follows the template up to `%s` and parts '
+                     'from it at `%s`' % (what, norm[max(0, n - 30):n], norm[n:n + 50]))
+
+
+# ------------------------------------------------------------------ locating items
+
+def impl_block(src, header_rx, what):
+    ms = list(re.finditer(header_rx, src.text))
+    if len(ms) != 1:
+        raise AnchorLost('%s: %d impl blocks match in %s' % (what, len(ms), src.path))
+    i = src.text.index('{', ms[0].end() - 1)
+    j = match_close(src.text, i)
+    return src.text[i + 1:j], (src.line_of(i), src.line_of(j))
+
+
+def fn_item(block, name, what):
+    """text `fn name ... { ... }` of the only fn of that name at depth 0 of the block"""
+    found = []
+    depth, i, n = 0, 0, len(block)
+    pat = re.compile(r'\bfn\s+' + re.escape(name) + r'\b')
+    while i < n:
+        c = block[i]
+        if c == '{':
+            i = match_close(block, i) + 1
+            continue
+        m = pat.match(block, i) if c == 'f' and (i == 0 or not (block[i - 1].isalnum() or block[i - 1] == '_')) else None
+        if m:
+            k, pd = m.end(), 0
+            while k < n:
+                ch = block[k]
+                if ch in '([':
+                    pd += 1
+                elif ch in ')]':
+                    pd -= 1
+                elif ch == '{' and pd == 0:
+                    break
+                elif ch == ';' and pd == 0:
+                    raise AnchorLost('%s: fn %s has no body' % (what, name))
+                k += 1
+            e = match_close(block, k)
+            found.append(block[i:e + 1])
+            i = e + 1
+            continue
+        i += 1
+    if len(found) != 1:
+        raise AnchorLost('%s: %d definitions of fn %s' % (what, len(found), name))
+    return found[0]
+
+
+def fn_names(block):
+    """names of the fns at depth 0 of an impl block"""
+    out, i, n = [], 0, len(block)
+    while i < n:
+        if block[i] == '{':
+            i = match_close(block, i) + 1
+            continue
+        m = re.compile(r'\bfn\s+(\w+)').match(block, i)
+        if m and (i == 0 or not (block[i - 1].isalnum() or block[i - 1] == '_')):
+            out.append(m.group(1))
+            i = m.end()
+            continue
+        i += 1
+    return out
+
+
+# ------------------------------------------------------------------ templates (Rust text, holes at the fact sites)
+
+T = {}
+T['VarInt::from_u32'] = [('fn from_u32(x: u32) -> Self { VarInt(x as u64) }', None)]
+T['VarInt::from_u64'] = [('''fn from_u64(x: u64) -> Result<Self, VarIntBoundsExceeded> {
+    if x <<op~<=?>> 2u64.pow(<<pow:\\d+>>) { Ok(VarInt(x)) } else { Err(VarIntBoundsExceeded(x)) } }''', None)]
+T['VarInt::from_u64_unchecked'] = [('fn from_u64_unchecked(x: u64) -> Self { VarInt(x) }', None)]
+T['VarInt::into_inner'] = [('fn into_inner(self) -> u64 { self.0 }', None)]
+T['VarInt::size'] = [('''fn size(self) -> usize {
+    let x = self.0;
+    if x < 2u64.pow(<<p0:\\d+>>) { <<s0:\\d+>> }
+    else if x < 2u64.pow(<<p1:\\d+>>) { <<s1:\\d+>> }
+    else if x < 2u64.pow(<<p2:\\d+>>) { <<s2:\\d+>> }
+    else if x < 2u64.pow(<<p3:\\d+>>) { <<s3:\\d+>> }
+    else { unreachable!("malformed VarInt"); } }''', None)]
+T['VarInt::encoded_size'] = [('fn encoded_size(first: u8) -> usize { 2usize.pow((first >> <<sh:\\d+>>) as u32) }', None)]
+T['VarInt::decode'] = [('''fn decode<B: Buf>(r: &mut B) -> Result<Self, UnexpectedEnd> {
+    if !r.has_remaining() { return Err(UnexpectedEnd(<<e_empty:\\d+>>)); }
+    let mut buf = [0; 8];
+    buf[0] = r.get_u8();
+    let tag = buf[0] >> <<tagshift:\\d+>>;
+    buf[0] &= <<mask:\\w+>>;
+    let x = match tag {
+        <<t0:0b[01]+>> => u64::from(buf[0]),
+        <<t1:0b[01]+>> => {
+            if r.remaining() < <<n1:\\d+>> { return Err(UnexpectedEnd(<<e1:\\d+>>)); }
+            r.copy_to_slice(&mut buf[1..<<c1:\\d+>>]);
+            u64::from(u16::from_be_bytes(buf[..<<tot1:\\d+>>].try_into().unwrap()))
+        }
+        <<t2:0b[01]+>> => {
+            if r.remaining() < <<n2:\\d+>> { return Err(UnexpectedEnd(<<e2:\\d+>>)); }
+            r.copy_to_slice(&mut buf[1..<<c2:\\d+>>]);
+            u64::from(u32::from_be_bytes(buf[..<<tot2:\\d+>>].try_into().unwrap()))
+        }
+        <<t3:0b[01]+>> => {
+            if r.remaining() < <<n3:\\d+>> { return Err(UnexpectedEnd(<<e3:\\d+>>)); }
+            r.copy_to_slice(&mut buf[1..<<c3:\\d+>>]);
+            u64::from_be_bytes(buf)
+        }
+        _ => unreachable!(),
+    };
+    Ok(VarInt(x)) }''', None)]
+T['VarInt::encode'] = [('''fn encode<B: BufMut>(&self, w: &mut B) {
+    let x = self.0;
+    if x < 2u64.pow(<<p0:\\d+>>) { w.put_u8(x as u8); }
+    else if x < 2u64.pow(<<p1:\\d+>>) { w.put_u16(<<t1:\\w+>> << <<s1:\\d+>> | x as u16); }
+    else if x < 2u64.pow(<<p2:\\d+>>) { w.put_u32(<<t2:\\w+>> << <<s2:\\d+>> | x as u32); }
+    else if x < 2u64.pow(<<p3:\\d+>>) { w.put_u64(<<t3:\\w+>> << <<s3:\\d+>> | x); }
+    else { unreachable!("malformed VarInt") } }''', None)]
+T['From<VarInt> for u64'] = [('fn from(x: VarInt) -> u64 { x.0 }', None)]
+T['From<u8> for VarInt'] = [('fn from(x: u8) -> Self { VarInt(x.into()) }', None)]
+T['From<u16> for VarInt'] = [('fn from(x: u16) -> Self { VarInt(x.into()) }', None)]
+T['From<u32> for VarInt'] = [('fn from(x: u32) -> Self { VarInt(x.into()) }', None)]
+T['TryFrom<u64> for VarInt'] = [
+    ('fn try_from(x: u64) -> Result<Self, VarIntBoundsExceeded> { VarInt::from_u64(x) }', True),
+    ('fn try_from(x: u64) -> Result<Self, VarIntBoundsExceeded> { Ok(VarInt(x)) }', False)]
+T['TryFrom<usize> for VarInt'] = [
+    ('fn try_from(x: usize) -> Result<Self, VarIntBoundsExceeded> { VarInt::try_from(x as u64) }', True),
+    ('fn try_from(x: usize) -> Result<Self, VarIntBoundsExceeded> { Ok(VarInt(x as u64)) }', False)]
+T['TryFrom<u64> for PushId'] = [
+    ('''fn try_from(v: u64) -> Result<Self, Self::Error> {
+        match VarInt::try_from(v) { Ok(id) => Ok(id.into()), Err(_) => Err(InvalidPushId(v)), } }''', True),
+    ('fn try_from(v: u64) -> Result<Self, Self::Error> { Ok(PushId(v)) }', False),
+    ('fn try_from(v: u64) -> Result<Self, Self::Error> { Ok(Self(v)) }', False)]
+T['From<VarInt> for PushId'] = [('fn from(v: VarInt) -> Self { Self(v.0) }', None)]
+T['get_var (varint.rs)'] = [
+    ('fn get_var(&mut self) -> Result<u64, UnexpectedEnd> { Ok(VarInt::decode(self)?.into_inner()) }', True),
+    ('fn get_var(&mut self) -> Result<u64, UnexpectedEnd> { Err(UnexpectedEnd(0)) }', False)]
+T['get_var (coding.rs)'] = [
+    ('fn get_var(&mut self) -> Result<u64> { Ok(VarInt::decode(self)?.into_inner()) }', True),
+    ('fn get_var(&mut self) -> Result<u64> { Err(UnexpectedEnd(0)) }', False)]
+T['write_var'] = [
+    ('fn write_var(&mut self, x: u64) { VarInt::from_u64(x).unwrap().encode(self); }', True),
+    ('fn write_var(&mut self, x: u64) { VarInt::from_u32(x as u32).encode(self); }', False)]
+# proto/stream.rs
+T['Decode for StreamType'] = [('fn decode<B: Buf>(buf: &mut B) -> Result<Self, UnexpectedEnd> { Ok(StreamType(buf.get_var()?)) }', None)]
+T['Encode for StreamType'] = [('fn encode<W: BufMut>(&self, buf: &mut W) { buf.write_var(self.0); }', None)]
+T['StreamType::value'] = [('fn value(&self) -> u64 { self.0 }', None)]
+T['StreamType::from_value'] = [('fn from_value(value: u64) -> Self { StreamType(value) }', None)]
+T['Display for StreamId'] = [('''fn fmt(&self, f: &mut fmt::Formatter<'_>) -> fmt::Result {
+    let initiator = match self.initiator() { Side::Client => <<w_client~"[^"\\\\{}]*">>, Side::Server => <<w_server~"[^"\\\\{}]*">>, };
+    let dir = match self.dir() { Dir::Uni => <<w_uni~"[^"\\\\{}]*">>, Dir::Bi => <<w_bi~"[^"\\\\{}]*">>, };
+    write!(f, <<fmt~"[^"\\\\]*">>, initiator, dir, <<num~self\\.index\\(\\)|self\\.0|self\\.into_inner\\(\\)>>) }''', None)]
+T['StreamId::is_request'] = [('fn is_request(&self) -> bool { self.dir() == Dir::<<d:\\w+>> && self.initiator() == Side::<<s:\\w+>> }', None)]
+T['StreamId::is_push'] = [('fn is_push(&self) -> bool { self.dir() == Dir::<<d:\\w+>> && self.initiator() == Side::<<s:\\w+>> }', None)]
+T['StreamId::initiator'] = [('fn initiator(self) -> Side { if self.0 & <<mask:\\w+>> == 0 { Side::<<zero:\\w+>> } else { Side::<<one:\\w+>> } }', None)]
+T['StreamId::new'] = [('''fn new(index: u64, dir: Dir, initiator: Side) -> Self {
+    StreamId((index) << <<ishift:\\d+>> | (dir as u64) << <<dshift:\\d+>> | initiator as u64) }''', None)]
+T['StreamId::index'] = [('fn index(self) -> u64 { self.0 >> <<shift:\\d+>> }', None)]
+T['StreamId::dir'] = [('fn dir(self) -> Dir { if self.0 & <<mask:\\w+>> == 0 { Dir::<<zero:\\w+>> } else { Dir::<<one:\\w+>> } }', None)]
+T['StreamId::into_inner'] = [('fn into_inner(self) -> u64 { self.0 }', None)]
+T['TryFrom<u64> for StreamId'] = [('''fn try_from(v: u64) -> Result<Self, Self::Error> {
+    if v <<op~>=?>> VarInt::MAX.0 { return Err(InvalidStreamId(v)); } Ok(Self(v)) }''', None)]
+T['From<VarInt> for StreamId'] = [('fn from(v: VarInt) -> Self { Self(v.0) }', None)]
+T['From<StreamId> for VarInt'] = [('fn from(v: StreamId) -> Self { Self(v.0) }', None)]
+T['From<SessionId> for StreamId'] = [('fn from(value: SessionId) -> Self { Self(value.into_inner()) }', None)]
+T['Encode for StreamId'] = [('fn encode<B: bytes::BufMut>(&self, buf: &mut B) { VarInt::from_u64(self.0).unwrap().encode(buf); }', None)]
+T['Add<usize> for StreamId'] = [('''fn add(self, rhs: usize) -> Self::Output {
+    let index = u64::min(u64::saturating_add(self.index(), rhs as u64), VarInt::MAX.0 >> <<cap:\\d+>> <<tc~,?>> );
+    Self::new(index, self.dir(), self.initiator()) }''', None)]
+# webtransport/session_id.rs
+T['SessionId::from_varint'] = [('fn from_varint(id: VarInt) -> SessionId { Self(id.0) }', None)]
+T['SessionId::into_inner'] = [('fn into_inner(self) -> u64 { self.0 }', None)]
+T['TryFrom<u64> for SessionId'] = [('''fn try_from(v: u64) -> Result<Self, Self::Error> {
+    if v <<op~>=?>> VarInt::MAX.0 { return Err(InvalidStreamId(v)); } Ok(Self(v)) }''', None)]
+T['Encode for SessionId'] = [('fn encode<B: bytes::BufMut>(&self, buf: &mut B) { VarInt::from_u64(self.0).unwrap().encode(buf); }', None)]
+T['Decode for SessionId'] = [('fn decode<B: bytes::Buf>(buf: &mut B) -> crate::proto::coding::Result<Self> { Ok(Self(VarInt::decode(buf)?.into_inner())) }', None)]
+T['From<StreamId> for SessionId'] = [('fn from(value: StreamId) -> Self { Self(value.into_inner()) }', None)]
+
+TF = r'(?:std::convert::|convert::)?TryFrom'
+# (key, file, impl header regex, fn name, allowed fn names of the impl block or None = not checked)
+ITEMS = [
+    ('VarInt::from_u32', 'va', r'(?m)^impl\s+VarInt\s*\{', 'from_u32'),
+    ('VarInt::from_u64', 'va', r'(?m)^impl\s+VarInt\s*\{', 'from_u64'),
+    ('VarInt::from_u64_unchecked', 'va', r'(?m)^impl\s+VarInt\s*\{', 'from_u64_unchecked'),
+    ('VarInt::into_inner', 'va', r'(?m)^impl\s+VarInt\s*\{', 'into_inner'),
+    ('VarInt::size', 'va', r'(?m)^impl\s+VarInt\s*\{', 'size'),
+    ('VarInt::encoded_size', 'va', r'(?m)^impl\s+VarInt\s*\{', 'encoded_size'),
+    ('VarInt::decode', 'va', r'(?m)^impl\s+VarInt\s*\{', 'decode'),
+    ('VarInt::encode', 'va', r'(?m)^impl\s+VarInt\s*\{', 'encode'),
+    ('From<VarInt> for u64', 'va', r'(?m)^impl\s+From<VarInt>\s+for\s+u64\s*\{', 'from'),
+    ('From<u8> for VarInt', 'va', r'(?m)^impl\s+From<u8>\s+for\s+VarInt\s*\{', 'from'),
+    ('From<u16> for VarInt', 'va', r'(?m)^impl\s+From<u16>\s+for\s+VarInt\s*\{', 'from'),
+    ('From<u32> for VarInt', 'va', r'(?m)^impl\s+From<u32>\s+for\s+VarInt\s*\{', 'from'),
+    ('TryFrom<u64> for VarInt', 'va', r'(?m)^impl\s+' + TF + r'<u64>\s+for\s+VarInt\s*\{', 'try_from'),
+    ('TryFrom<usize> for VarInt', 'va', r'(?m)^impl\s+' + TF + r'<usize>\s+for\s+VarInt\s*\{', 'try_from'),
+    ('get_var (varint.rs)', 'va', r'(?m)^impl<(\w+):\s*Buf>\s+BufExt\s+for\s+\1\s*\{', 'get_var'),
+    ('write_var', 'va', r'(?m)^impl<(\w+):\s*BufMut>\s+BufMutExt\s+for\s+\1\s*\{', 'write_var'),
+    ('get_var (coding.rs)', 'co', r'(?m)^impl<(\w+):\s*Buf>\s+BufExt\s+for\s+\1\s*\{', 'get_var'),
+    ('write_var', 'co', r'(?m)^impl<(\w+):\s*BufMut>\s+BufMutExt\s+for\s+\1\s*\{', 'write_var'),
+    ('TryFrom<u64> for PushId', 'pu', r'(?m)^impl\s+' + TF + r'<u64>\s+for\s+PushId\s*\{', 'try_from'),
+    ('From<VarInt> for PushId', 'pu', r'(?m)^impl\s+From<VarInt>\s+for\s+PushId\s*\{', 'from'),
+    ('Decode for StreamType', 'st', r'(?m)^impl\s+Decode\s+for\s+StreamType\s*\{', 'decode'),
+    ('Encode for StreamType', 'st', r'(?m)^impl\s+Encode\s+for\s+StreamType\s*\{', 'encode'),
+    ('StreamType::value', 'st', r'(?m)^impl\s+StreamType\s*\{', 'value'),
+    ('StreamType::from_value', 'st', r'(?m)^impl\s+StreamType\s*\{', 'from_value'),
+    ('Display for StreamId', 'st', r'(?m)^impl\s+(?:std::)?(?:fmt::)?Display\s+for\s+StreamId\s*\{', 'fmt'),
+    ('StreamId::is_request', 'st', r'(?m)^impl\s+StreamId\s*\{', 'is_request'),
+    ('StreamId::is_push', 'st', r'(?m)^impl\s+StreamId\s*\{', 'is_push'),
+    ('StreamId::initiator', 'st', r'(?m)^impl\s+StreamId\s*\{', 'initiator'),
+    ('StreamId::new', 'st', r'(?m)^impl\s+StreamId\s*\{', 'new'),
+    ('StreamId::index', 'st', r'(?m)^impl\s+StreamId\s*\{', 'index'),
+    ('StreamId::dir', 'st', r'(?m)^impl\s+StreamId\s*\{', 'dir'),
+    ('StreamId::into_inner', 'st', r'(?m)^impl\s+StreamId\s*\{', 'into_inner'),
+    ('TryFrom<u64> for StreamId', 'st', r'(?m)^impl\s+' + TF + r'<u64>\s+for\s+StreamId\s*\{', 'try_from'),
+    ('From<VarInt> for StreamId', 'st', r'(?m)^impl\s+From<VarInt>\s+for\s+StreamId\s*\{', 'from'),
+    ('From<StreamId> for VarInt', 'st', r'(?m)^impl\s+From<StreamId>\s+for\s+VarInt\s*\{', 'from'),
+    ('From<SessionId> for StreamId', 'st', r'(?m)^impl\s+From<SessionId>\s+for\s+StreamId\s*\{', 'from'),
+    ('Encode for StreamId', 'st', r'(?m)^impl\s+Encode\s+for\s+StreamId\s*\{', 'encode'),
+    ('Add<usize> for StreamId', 'st', r'(?m)^impl\s+(?:std::ops::|ops::)?Add<usize>\s+for\s+StreamId\s*\{', 'add'),
+    ('SessionId::from_varint', 'se', r'(?m)^impl\s+SessionId\s*\{', 'from_varint'),
+    ('SessionId::into_inner', 'se', r'(?m)^impl\s+SessionId\s*\{', 'into_inner'),
+    ('TryFrom<u64> for SessionId', 'se', r'(?m)^impl\s+' + TF + r'<u64>\s+for\s+SessionId\s*\{', 'try_from'),
+    ('Encode for SessionId', 'se', r'(?m)^impl\s+Encode\s+for\s+SessionId\s*\{', 'encode'),
+    ('Decode for SessionId', 'se', r'(?m)^impl\s+Decode\s+for\s+SessionId\s*\{', 'decode'),
+    ('From<StreamId> for SessionId', 'se', r'(?m)^impl\s+From<StreamId>\s+for\s+SessionId\s*\{', 'from'),
+]
+# every fn of these impl blocks must be one of the anchored ones (a new method = a new writer/constructor to look at)
+CLOSED_BLOCKS = [
+    ('va', r'(?m)^impl\s+VarInt\s*\{', ['from_u32', 'from_u64', 'from_u64_unchecked', 'into_inner', 'size', 'encoded_size', 'decode', 'encode']),
+    ('st', r'(?m)^impl\s+StreamId\s*\{', ['is_request', 'is_push', 'initiator', 'new', 'index', 'dir', 'into_inner']),
+    ('se', r'(?m)^impl\s+SessionId\s*\{', ['from_varint', 'into_inner']),
+]
+FILES = {'va': '/h3/src/proto/varint.rs', 'co': '/h3/src/proto/coding.rs', 'pu': '/h3/src/proto/push.rs',
+         'st': '/h3/src/proto/stream.rs', 'se': '/h3/src/webtransport/session_id.rs'}
+
+
+def display_parse(text):
+    """the lenient reading of Display the harness (harness/src/bin/c16.rs, fn display_parse) applies: case-insensitive
+    words, the last run of digits"""
+    low = text.lower()
+    side = 'client' if ('client' in low and 'server' not in low) else 'server' if ('server' in low and 'client' not in low) else '?'
+    dirn = 'uni' if 'uni' in low else 'bi' if 'bi' in low else '?'
+    nums = re.findall(r'\d+', text)
+    return side, dirn, (nums[-1] if nums else '?')
+
+
+def enum_discriminants(src, name):
+    m = re.search(r'\benum\s+' + name + r'\s*\{', src.text)
+    if not m:
+        raise AnchorLost('enum ' + name)
+    i = src.text.index('{', m.start())
+    j = match_close(src.text, i)
+    body = re.sub(r'\s+', '', src.text[i + 1:j])
+    rows = re.fullmatch(r'(?:(\w+)=(\d+),)(?:(\w+)=(\d+),?)', body)
+    if not rows:
+        raise AnchorLost('enum %s is not two variants with explicit discriminants: %s' % (name, body))
+    return {rows.group(1): int(rows.group(2)), rows.group(3): int(rows.group(4))}
 
 
 def extract(repo):
-    src = Source(repo + '/h3/src/proto/varint.rs')
-    spans = {}
-    facts = {}
+    srcs = {k: Source(repo + p) for k, p in FILES.items()}
+    spans, got = {}, {}
+    for key, fk, hdr, fn in ITEMS:
+        block, span = impl_block(srcs[fk], hdr, key)
+        item = fn_item(block, fn, key)
+        tag, g = match_item('%s (%s)' % (key, FILES[fk][8:]), item, T[key])
+        got.setdefault(key, []).append((tag, g))
+        spans[key + '@' + fk] = span
+    for fk, hdr, allowed in CLOSED_BLOCKS:
+        block, _ = impl_block(srcs[fk], hdr, hdr)
+        extra = [n for n in fn_names(block) if n not in allowed]
+        if extra:
+            raise AnchorLost('new method(s) %s in the inherent impl block (%s) of %s: not modelled' % (extra, allowed[0] + ', ...', FILES[fk][1:]))
 
-    body, span = src.fn_body('size')
-    spans['size'] = span
-    rows = re.findall(r'x\s*<\s*2u64\.pow\(\s*(\d+)\s*\)\s*\{\s*(\d+)\s*\}', body)
-    if len(rows) < 1:
-        raise AnchorLost('varint size rows')
-    facts['size_rows'] = [(int(a), int(b)) for a, b in rows]
+    def one(key):
+        return got[key][0][1]
 
-    body, span = src.fn_body('encode')
-    spans['encode'] = span
-    rows = []
-    for m in re.finditer(r'x\s*<\s*2u64\.pow\(\s*(\d+)\s*\)\s*\{\s*w\.put_u(\d+)\(([^;]*)\);', body):
-        pw, width, expr = int(m.group(1)), int(m.group(2)), m.group(3)
-        mm = re.match(r'\s*(\w+)\s*<<\s*(\d+)\s*\|\s*x(\s+as\s+u\d+)?\s*$', expr)
-        if mm:
-            tag, sh = parse_int(mm.group(1)), int(mm.group(2))
-        elif re.match(r'\s*x(\s+as\s+u\d+)?\s*$', expr):
-            tag, sh = 0, 0
-        else:
-            raise AnchorLost('varint encode arm: ' + expr)
-        rows.append((pw, width, tag, sh))
-    if not rows:
-        raise AnchorLost('varint encode rows')
-    facts['enc_rows'] = rows
+    def flag(key):
+        tags = {t for t, _ in got[key]}
+        if len(tags) != 1:
+            raise AnchorLost('the copies of %s differ' % key)
+        return tags.pop()
 
-    body, span = src.fn_body('decode')
-    spans['decode'] = span
-    m = re.search(r'let\s+tag\s*=\s*buf\[0\]\s*>>\s*(\d+)', body)
-    if not m:
-        raise AnchorLost('varint decode tag')
-    facts['dec_tag_shift'] = int(m.group(1))
-    m = re.search(r'buf\[0\]\s*&=\s*(\w+)', body)
-    if not m:
-        raise AnchorLost('varint decode mask')
-    facts['dec_mask'] = parse_int(m.group(1))
-    m = re.search(r'!r\.has_remaining\(\)\s*\{\s*return\s+Err\(UnexpectedEnd\((\d+)\)\)', body)
-    if not m:
-        raise AnchorLost('varint decode empty')
-    facts['dec_empty_err'] = int(m.group(1))
-    rows = []
-    arm_re = re.compile(r'(0b[01]+)\s*=>\s*(\{|u64::from\(buf\[0\]\))')
-    for m in arm_re.finditer(body):
-        tag = parse_int(m.group(1))
-        if m.group(2) != '{':
-            rows.append((tag, 0, 0, 0, 1))
-            continue
-        from rustsrc import match_close
-        i = m.end() - 1
-        j = match_close(body, i)
-        arm = body[i:j]
-        a = re.search(r'r\.remaining\(\)\s*<\s*(\d+)\s*\{\s*return\s+Err\(UnexpectedEnd\((\d+)\)\)', arm)
-        b = re.search(r'copy_to_slice\(&mut\s+buf\[(\d+)\.\.(\d+)\]\)', arm)
-        c = re.search(r'from_be_bytes\(buf\[\.\.(\d+)\]', arm) or (re.search(r'u64::from_be_bytes\(buf\)', arm) and 8)
-        if not (a and b and c):
-            raise AnchorLost('varint decode arm %d' % tag)
-        total = c if isinstance(c, int) else int(c.group(1))
-        if int(b.group(1)) != 1:
-            raise AnchorLost('varint decode slice start')
-        rows.append((tag, int(a.group(1)), int(a.group(2)), int(b.group(2)) - 1, total))
-    if not rows:
-        raise AnchorLost('varint decode rows')
-    facts['dec_rows'] = rows
-
-    body, span = src.fn_body('from_u64')
-    spans['from_u64'] = span
-    m = re.search(r'if\s+x\s*(<|<=)\s*2u64\.pow\(\s*(\d+)\s*\)', body)
-    if not m:
-        raise AnchorLost('from_u64 bound')
-    facts['from_u64_strict'] = (m.group(1) == '<')
-    facts['from_u64_pow'] = int(m.group(2))
-
-    body, span = src.fn_body('encoded_size')
-    m = re.search(r'2usize\.pow\(\(first\s*>>\s*(\d+)\)\s*as\s*u32\)', body)
-    if not m:
-        raise AnchorLost('encoded_size')
-    facts['encsize_shift'] = int(m.group(1))
-
-    m = re.search(r'pub const MAX: VarInt = VarInt\(\(1\s*<<\s*(\d+)\)\s*-\s*1\)', src.text)
-    if not m:
+    f = {}
+    g = one('VarInt::size')
+    f['size_rows'] = [(int(g['p%d' % i]), int(g['s%d' % i])) for i in range(4)]
+    g = one('VarInt::encode')
+    f['enc_rows'] = [(int(g['p0']), 8, 0, 0)] + [(int(g['p%d' % i]), w, parse_int(g['t%d' % i]), int(g['s%d' % i]))
+                                                  for i, w in ((1, 16), (2, 32), (3, 64))]
+    g = one('VarInt::decode')
+    f['dec_tag_shift'] = int(g['tagshift'])
+    f['dec_mask'] = parse_int(g['mask'])
+    f['dec_empty_err'] = int(g['e_empty'])
+    f['dec_rows'] = [(parse_int(g['t0']), 0, 0, 0, 1)] + [
+        (parse_int(g['t%d' % i]), int(g['n%d' % i]), int(g['e%d' % i]), int(g['c%d' % i]) - 1, tot)
+        for i, tot in ((1, int(g['tot1'])), (2, int(g['tot2'])), (3, 8))]
+    g = one('VarInt::from_u64')
+    f['from_u64_strict'] = (g['op'] == '<')
+    f['from_u64_pow'] = int(g['pow'])
+    f['encsize_shift'] = int(one('VarInt::encoded_size')['sh'])
+    m = re.search(r'\bconst\s+MAX\s*:\s*VarInt\s*=\s*VarInt\(\(1\s*<<\s*(\d+)\)\s*-\s*1\)\s*;', srcs['va'].text)
+    if not m or len(re.findall(r'\bconst\s+MAX\b', srcs['va'].text)) != 1:
         raise AnchorLost('VarInt::MAX')
-    facts['max_shift'] = int(m.group(1))
-
-    # the other checked constructors: they must delegate to from_u64 (the whole body is the delegation)
-    def body_of(rx, what, text):
-        m = re.search(rx, text, re.S)
-        if not m:
-            raise AnchorLost(what)
-        return re.sub(r'\s+', ' ', m.group(1)).strip()
-    b = body_of(r'impl\s+std::convert::TryFrom<u64>\s+for\s+VarInt\s*\{.*?fn\s+try_from\(x:\s*u64\)[^{]*\{(.*?)\}\s*\}', 'TryFrom<u64> for VarInt', src.text)
-    facts['try_from_u64_delegates'] = (b == 'VarInt::from_u64(x)')
-    if not facts['try_from_u64_delegates']:
-        raise AnchorLost('TryFrom<u64> for VarInt body: ' + b)
-    b = body_of(r'impl\s+std::convert::TryFrom<usize>\s+for\s+VarInt\s*\{.*?fn\s+try_from\(x:\s*usize\)[^{]*\{(.*?)\}\s*\}', 'TryFrom<usize> for VarInt', src.text)
-    facts['try_from_usize_delegates'] = (b == 'VarInt::try_from(x as u64)')
-    if not facts['try_from_usize_delegates']:
-        raise AnchorLost('TryFrom<usize> for VarInt body: ' + b)
-    pu = Source(repo + '/h3/src/proto/push.rs')
-    b = body_of(r'impl\s+TryFrom<u64>\s+for\s+PushId\s*\{.*?fn\s+try_from\(v:\s*u64\)[^{]*\{(.*?)\}\s*\}\s*\}', 'TryFrom<u64> for PushId', pu.text + '}')
-    facts['push_id_delegates'] = bool(re.fullmatch(r'match VarInt::try_from\(v\) \{ Ok\(id\) => Ok\(id\.into\(\)\), Err\(_\) => Err\(InvalidPushId\(v\)\), ?', b))
-    if not facts['push_id_delegates']:
-        raise AnchorLost('TryFrom<u64> for PushId body: ' + b)
-    # write_var / get_var wrappers, both copies
-    co = Source(repo + '/h3/src/proto/coding.rs')
-    wv, gv = [], []
-    for srcx in (src, co):
-        for mm in re.finditer(r'fn\s+write_var\(&mut self,\s*x:\s*u64\)\s*\{(.*?)\}', srcx.text, re.S):
-            wv.append(re.sub(r'\s+', ' ', mm.group(1)).strip())
-        for mm in re.finditer(r'fn\s+get_var\(&mut self\)\s*->\s*[^{;]*\{(.*?)\}', srcx.text, re.S):
-            gv.append(re.sub(r'\s+', ' ', mm.group(1)).strip())
-    if len(wv) != 2 or any(w != 'VarInt::from_u64(x).unwrap().encode(self);' for w in wv):
-        raise AnchorLost('write_var bodies: %r' % wv)
-    if len(gv) != 2 or any(g != 'Ok(VarInt::decode(self)?.into_inner())' for g in gv):
-        raise AnchorLost('get_var bodies: %r' % gv)
-    facts['write_var_is_checked_encode'] = True
-    facts['get_var_is_decode'] = True
-    if len(facts['size_rows']) != 4 or len(facts['enc_rows']) != 4 or len(facts['dec_rows']) != 4:
-        raise AnchorLost('varint tables must have four rows each')
+    f['max_shift'] = int(m.group(1))
+    f['try_from_u64_delegates'] = flag('TryFrom<u64> for VarInt')
+    f['try_from_usize_delegates'] = flag('TryFrom<usize> for VarInt')
+    f['push_id_delegates'] = flag('TryFrom<u64> for PushId')
+    f['write_var_is_checked_encode'] = flag('write_var')
+    gv = {flag('get_var (varint.rs)'), flag('get_var (coding.rs)')}
+    if len(gv) != 1:
+        raise AnchorLost('the copies of get_var differ')
+    f['get_var_is_decode'] = gv.pop()
+    # stream.rs must take write_var/get_var from proto/coding.rs (the copy of proto/varint.rs is anchored as well)
+    st = srcs['st'].text
+    m = re.search(r'\bcoding::\{([^}]*)\}', st)
+    if not m or not {'BufExt', 'BufMutExt', 'Decode', 'Encode'} <= set(re.findall(r'\w+', m.group(1))) \
+            or re.search(r'varint::\{[^}]*Buf(Mut)?Ext', st) or re.search(r'varint::Buf(Mut)?Ext', st):
+        raise AnchorLost('proto/stream.rs no longer imports BufExt/BufMutExt/Decode/Encode from coding')
 
     # StreamId
-    s2 = Source(repo + '/h3/src/proto/stream.rs')
-    t = s2.text
-    def need(rx, what):
-        m = re.search(rx, t)
-        if not m:
-            raise AnchorLost('StreamId ' + what)
-        return m
-    body, _ = s2.fn_body('index')
-    m = re.search(r'self\.0\s*>>\s*(\d+)', body)
-    if not m: raise AnchorLost('sid index')
-    facts['sid_index_shift'] = int(m.group(1))
-    body, _ = s2.fn_body('initiator')
-    m = re.search(r'self\.0\s*&\s*(\w+)\s*==\s*0\s*\{\s*Side::(\w+)', body)
-    if not m: raise AnchorLost('sid initiator')
-    facts['sid_init_mask'] = parse_int(m.group(1))
-    facts['sid_init_zero_is_client'] = (m.group(2) == 'Client')
-    body, _ = s2.fn_body('dir')
-    m = re.search(r'self\.0\s*&\s*(\w+)\s*==\s*0\s*\{\s*Dir::(\w+)', body)
-    if not m: raise AnchorLost('sid dir')
-    facts['sid_dir_mask'] = parse_int(m.group(1))
-    facts['sid_dir_zero_is_bi'] = (m.group(2) == 'Bi')
-    body, _ = s2.fn_body('new')
-    m = re.search(r'\(index\)\s*<<\s*(\d+)\s*\|\s*\(dir as u64\)\s*<<\s*(\d+)\s*\|\s*initiator as u64', body)
-    if not m: raise AnchorLost('sid new')
-    facts['sid_new_index_shift'] = int(m.group(1))
-    facts['sid_new_dir_shift'] = int(m.group(2))
-    body, _ = s2.fn_body('add')
-    m = re.search(r'u64::min\(\s*u64::saturating_add\(self\.index\(\),\s*rhs as u64\),\s*VarInt::MAX\.0\s*>>\s*(\d+),?\s*\)', body)
-    if not m: raise AnchorLost('sid add')
-    facts['sid_add_cap_shift'] = int(m.group(1))
-    if not re.search(r'Self::new\(index,\s*self\.dir\(\),\s*self\.initiator\(\)\)', body):
-        raise AnchorLost('sid add new')
-    m = need(r'impl TryFrom<u64> for StreamId\s*\{[^}]*?fn try_from\(v: u64\)[^{]*\{\s*if\s+v\s*(>=|>)\s*VarInt::MAX\.0', 'try_from')
-    facts['sid_try_from_strict_gt'] = (m.group(1) == '>')
-    body, _ = s2.fn_body('is_request')
-    m = re.search(r'self\.dir\(\)\s*==\s*Dir::(\w+)\s*&&\s*self\.initiator\(\)\s*==\s*Side::(\w+)', body)
-    if not m: raise AnchorLost('is_request')
-    facts['is_request_def'] = (m.group(1), m.group(2))
-    body, _ = s2.fn_body('is_push')
-    m = re.search(r'self\.dir\(\)\s*==\s*Dir::(\w+)\s*&&\s*self\.initiator\(\)\s*==\s*Side::(\w+)', body)
-    if not m: raise AnchorLost('is_push')
-    facts['is_push_def'] = (m.group(1), m.group(2))
-    return facts, spans
+    f['sid_index_shift'] = int(one('StreamId::index')['shift'])
+    for key, fact_mask, fact_zero, a, b_ in (('StreamId::initiator', 'sid_init_mask', 'sid_init_zero_is_client', 'Client', 'Server'),
+                                             ('StreamId::dir', 'sid_dir_mask', 'sid_dir_zero_is_bi', 'Bi', 'Uni')):
+        g = one(key)
+        if {g['zero'], g['one']} != {a, b_}:
+            raise AnchorLost('%s returns %s / %s' % (key, g['zero'], g['one']))
+        f[fact_mask] = parse_int(g['mask'])
+        f[fact_zero] = (g['zero'] == a)
+    g = one('StreamId::new')
+    f['sid_new_index_shift'] = int(g['ishift'])
+    f['sid_new_dir_shift'] = int(g['dshift'])
+    f['sid_add_cap_shift'] = int(one('Add<usize> for StreamId')['cap'])
+    f['sid_try_from_strict_gt'] = (one('TryFrom<u64> for StreamId')['op'] == '>')
+    f['sess_try_from_strict_gt'] = (one('TryFrom<u64> for SessionId')['op'] == '>')
+    g = one('StreamId::is_request')
+    f['is_request_def'] = (g['d'], g['s'])
+    g = one('StreamId::is_push')
+    f['is_push_def'] = (g['d'], g['s'])
+    # the discriminants `new` casts: the model's side_n / dir_n hard-code them
+    if enum_discriminants(srcs['st'], 'Side') != {'Client': 0, 'Server': 1}:
+        raise AnchorLost('enum Side discriminants are not Client = 0, Server = 1 (Model/Varint.v side_n)')
+    if enum_discriminants(srcs['st'], 'Dir') != {'Bi': 0, 'Uni': 1}:
+        raise AnchorLost('enum Dir discriminants are not Bi = 0, Uni = 1 (Model/Varint.v dir_n)')
+    # Display for StreamId: read the words through the same lenient parser the harness uses
+    g = one('Display for StreamId')
+    fmt = g['fmt'][1:-1]
+    if fmt.count('{}') != 3 or '{' in fmt.replace('{}', ''):
+        raise AnchorLost('Display for StreamId: format string is not three plain {} placeholders: ' + fmt)
+    words = {}
+    for side_w, dir_w in (('w_client', 'w_bi'), ('w_server', 'w_uni')):
+        p = fmt.split('{}')
+        text = p[0] + g[side_w][1:-1] + p[1] + g[dir_w][1:-1] + p[2] + '4242' + p[3]
+        s, d, n = display_parse(text)
+        if '?' in (s, d) or n != '4242':
+            raise AnchorLost('Display for StreamId prints %r: initiator/direction words or number not recognisable '
+                             '(update display_parse here and in harness/src/bin/c16.rs)' % text)
+        words[side_w], words[dir_w] = s, d
+    if {words['w_client'], words['w_server']} != {'client', 'server'} or {words['w_bi'], words['w_uni']} != {'bi', 'uni'}:
+        raise AnchorLost('Display for StreamId: the two initiator (direction) words read the same')
+    f['disp_side_words_straight'] = (words['w_client'] == 'client')
+    f['disp_dir_words_straight'] = (words['w_bi'] == 'bi')
+    f['disp_number_is_index'] = (g['num'] == 'self.index()')
+    return f, spans
 
 
 def b(x):
@@ -205,7 +546,15 @@ def render(f):
     L.append('Definition sid_try_from_strict_gt : bool := %s.' % b(f['sid_try_from_strict_gt']))
     L.append('Definition is_request_bi_client : bool := %s.' % b(f['is_request_def'] == ('Bi', 'Client')))
     L.append('Definition is_push_uni_server : bool := %s.' % b(f['is_push_def'] == ('Uni', 'Server')))
+    L.append('Definition sess_try_from_strict_gt : bool := %s.' % b(f['sess_try_from_strict_gt']))
+    L.append('Definition disp_side_words_straight : bool := %s.' % b(f['disp_side_words_straight']))
+    L.append('Definition disp_dir_words_straight : bool := %s.' % b(f['disp_dir_words_straight']))
+    L.append('Definition disp_number_is_index : bool := %s.' % b(f['disp_number_is_index']))
     return '\n'.join(L) + '\n'
 
 
-NAME = 'GenVarint'
+if __name__ == '__main__':
+    import sys
+    repo = sys.argv[1] if len(sys.argv) > 1 else '/repo'
+    facts, _ = extract(repo)
+    sys.stdout.write(render(facts))
